@@ -22,7 +22,7 @@ class World:
     """One aioftp.Server on simnet with a spying back end."""
 
     def __init__(self, net, *, backend="memory", users=None, tree=None, port=2121, host="127.0.0.1",
-                 base=None, **server_kwargs):
+                 base=None, raw=False, **server_kwargs):
         self.net = net
         self.backend = backend
         self.ctl = spyfs.SpyControl()
@@ -39,7 +39,9 @@ class World:
         self.users = users
         self.socket_timeout = server_kwargs.get("socket_timeout")
         self.host, self.port = host, port
-        self.factory = spyfs.make_spy(BACKENDS[backend], self.ctl)
+        # raw: the back end class itself, no spy around it (the spy translates exceptions on its own, which would hide what the
+        # real back end's own decorators let through; faults are then injected beneath it, see SimLoop.exec_hook)
+        self.factory = BACKENDS[backend] if raw else spyfs.make_spy(BACKENDS[backend], self.ctl)
         self.server = aioftp.Server(users, path_io_factory=self.factory, **server_kwargs)
         self._tree0 = tree
         self.close_hung = False
